@@ -2,3 +2,4 @@ pub mod automaton;
 pub mod grammar;
 pub mod parse;
 pub mod sentences;
+pub mod yacc;
